@@ -5,7 +5,7 @@ from fractions import Fraction
 
 import numpy as np
 
-from .common import Case, ints, intm, rats, ratm
+from .common import Case, ints, intm, rats, ratm, fx, fxs, fxm
 
 FILES = ["quantecon/_gridtools.py", "quantecon/util/combinatorics.py", "quantecon/util/numba.py"]
 
@@ -448,6 +448,163 @@ def run_forms_histories(ctx, cases, gt, comb_jit, next_k_array, k_array_rank, k_
                                   {"op": "nearest-history", "forms": list(tpl)})
 
 
+def run_api(ctx, cases, gt):
+    """round 4: cartesian / mlinspace AS CALLED — argument handling and error branches (cartesianApi, linspace,
+    mlGrids, mlinspaceApi of the model); mlinspace outputs are compared bit for bit with the model run at Float"""
+    rng = ctx.rng
+
+    def call(f):
+        try:
+            return f()
+        except (ValueError, ZeroDivisionError, IndexError) as e:
+            return "ERR:" + type(e).__name__
+
+    # ---- cartesian: valid + malformed (no grids, empty grids, other order strings) ---------------------------------
+    streams = []
+    for _ in range(ctx.n(60, 300)):
+        d = rng.randint(1, 4)
+        streams.append(([[rng.randint(-9, 9) for _ in range(rng.randint(1, 4))] for _ in range(d)], rng.choice(["C", "F", "F", "C", "X", "c", "f", ""])))
+    for _ in range(ctx.n(40, 200)):           # malformed: some grid empty / no grid at all
+        d = rng.randint(0, 4)
+        nodes = [[rng.randint(-9, 9) for _ in range(rng.randint(0, 3))] for _ in range(d)]
+        if d and all(nodes) and rng.random() < 0.8:
+            nodes[rng.randrange(d)] = []
+        streams.append((nodes, rng.choice(["C", "F", "X"])))
+    for nodes, order in streams:
+        out = call(lambda: gt.cartesian([np.array(g, dtype=np.int64) for g in nodes], order=order))
+        if isinstance(out, str):
+            impl = out
+            ctx.count("cartapi:" + out)
+            # the product of the grids is well defined (empty) when a grid is empty: only these two exits are modelled
+            if not ((out == "ERR:ValueError" and not nodes) or (out == "ERR:ZeroDivisionError" and nodes and not all(nodes))):
+                ctx.spec_fail("cartesian_error_branch", "cartesian(%s, order=%r) raised %s" % (nodes, order, out),
+                              {"op": "cartapi", "nodes": nodes, "order": order, "got": out})
+        else:
+            impl = intm(out.tolist())
+            ctx.count("cartapi:ok-order-" + ("C" if order == "C" else "F" if order == "F" else "other"))
+            if order == "C":
+                ref = [list(t) for t in itertools.product(*nodes)]
+            else:                               # anything but 'C' takes the F branch
+                ref = [list(reversed(t)) for t in itertools.product(*reversed(nodes))]
+            if out.tolist() != ref:
+                ctx.spec_fail("cartesian_api", "cartesian(%s, order=%r) is not the product grid" % (nodes, order),
+                              {"op": "cartapi", "nodes": nodes, "order": order, "got": out.tolist()})
+        enc = "none" if not nodes else ";".join(ints(g) for g in nodes)
+        cases.append(Case("C16 cartapi nodes=%s order=%s" % (enc, order if order else "_"), impl, nontrivial=(len(nodes) >= 2), tag="cartapi"))
+
+    # ---- mlinspace: valid stream (bit-exact) + malformed stream ------------------------------------------------------
+    pool = [0.0, 1.0, -1.0, 0.5, 0.25, 3.0, 10.0, 0.1, 0.3, 0.7, 1.0 / 3.0, 2.0 / 3.0, 1e-3, 1e10, -2.5, 7.0, 100.0, 0.1 + 0.2]
+    def val():
+        k = rng.randrange(3)
+        if k == 0:
+            return float(rng.randint(-6, 6))
+        if k == 1:
+            return rng.randint(-64, 64) / 16.0
+        return rng.choice(pool)
+    for it in range(ctx.n(250, 1500)):
+        d = rng.randint(1, 3)
+        malformed = rng.random() < 0.25
+        nums = [rng.randint(1, 6) for _ in range(d)]
+        la, lb = d + rng.choice([0, 0, 1]), d + rng.choice([0, 0, 2])
+        if malformed:
+            kind = rng.randrange(5)
+            if kind == 0:
+                nums[rng.randrange(d)] = -rng.randint(1, 3)
+            elif kind == 1:
+                la = rng.randint(0, d - 1)
+            elif kind == 2:
+                lb = rng.randint(0, d - 1)
+            elif kind == 3:
+                nums[rng.randrange(d)] = 0
+            else:                                # several defects at once: the first failing index decides
+                nums = [rng.choice([-1, 0, 2, 3]) for _ in range(d)]
+                la, lb = rng.randint(0, d), rng.randint(0, d)
+            if rng.random() < 0.1:
+                nums, la, lb = [], 0, 0
+        a = [val() for _ in range(la)]
+        b = [(a[i] if i < la and rng.random() < 0.15 else val()) for i in range(lb)]
+        order = rng.choice(["C", "F", "C", "F", "X"])
+        out = call(lambda: gt.mlinspace(a, b, nums, order=order))
+        if isinstance(out, str):
+            impl = out
+            ctx.count("mlinspace:" + out)
+        else:
+            impl = fxm(out.tolist())
+            ctx.count("mlinspace:ok")
+            # spec (exact, independent of the model): every grid starts at a[i] and, with >= 2 nodes, ends exactly at b[i];
+            # the rows are the product of the per-dimension node lists in the requested order
+            cols = []
+            for i in range(len(nums)):
+                col = sorted(set(out[:, i].tolist()), reverse=(b[i] < a[i]))
+                cols.append(col)
+                if col[0] != a[i] or (nums[i] >= 2 and col[-1] != b[i]) or len(col) > nums[i]:
+                    ctx.spec_fail("mlinspace_endpoints", "mlinspace(%s,%s,%s): dimension %d has nodes %s" % (a, b, nums, i, col),
+                                  {"op": "mlinspace", "a": a, "b": b, "nums": nums, "order": order})
+            if out.shape != (int(np.prod(nums)), len(nums)):
+                ctx.spec_fail("mlinspace_shape", "mlinspace(%s,%s,%s) has shape %s" % (a, b, nums, out.shape),
+                              {"op": "mlinspace", "a": a, "b": b, "nums": nums, "order": order})
+            for i in range(len(nums)):
+                if a[i] == b[i]:
+                    ctx.count("mlinspace:degenerate-interval")
+                elif b[i] < a[i]:
+                    ctx.count("mlinspace:descending")
+        cases.append(Case("C16 mlinspace a=%s b=%s nums=%s order=%s" % (fxs(a), fxs(b), ints(nums), order), impl,
+                          nontrivial=(not isinstance(out, str) and max(nums) >= 3), tag="mlinspace"))
+    # ---- cartesian_nearest_index as called: 1-d / batch x, length test, empty grids, no grids, odd order strings -------
+    def ratrows(rows):
+        return "none" if not rows else ";".join(rats(r) for r in rows)
+    for it in range(ctx.n(200, 1000)):
+        d = rng.randint(1, 3)
+        nodes = [[Fraction(v, 4) for v in sorted(rng.sample(range(-16, 17), rng.randint(1, 4)))] for _ in range(d)]
+        n = d
+        mal = rng.random() < 0.3
+        if mal:
+            kind = rng.randrange(4)
+            if kind == 0:
+                n = d + rng.choice([-1, 1, 2])            # wrong point length
+            elif kind == 1:
+                nodes[rng.randrange(d)] = []               # empty grid
+            elif kind == 2:
+                nodes = []                                 # no grids
+                n = rng.choice([0, 1])
+            else:
+                nodes[rng.randrange(d)] = []
+                n = d + 1                                  # two defects: the empty grid is met first
+        m = rng.choice([1, 1, 2, 3, 0])
+        one_d = (m == 1 and rng.random() < 0.6)
+        X = [[Fraction(rng.randint(-80, 80), 16) for _ in range(n)] for _ in range(m)]
+        order = rng.choice(["C", "F", "C", "F", "X", "f"])
+        tn = tuple(np.array([float(v) for v in g]) for g in nodes)
+        if one_d:
+            xarg = np.array([float(v) for v in X[0]])
+        else:
+            xarg = np.array([[float(v) for v in r] for r in X], dtype=float).reshape(m, n)
+        out = call(lambda: gt.cartesian_nearest_index(xarg, tn, order=order))
+        if isinstance(out, str):
+            impl = out
+            ctx.count("nearestapi:" + out)
+        else:
+            got = [int(t) for t in np.atleast_1d(out)]
+            impl = ints(got)
+            ctx.count("nearestapi:ok-%s-order-%s" % ("1d" if one_d else "batch%d" % m, order if order in "CF" else "other"))
+            if np.ndim(out) != (0 if one_d else 1) or len(got) != m:
+                ctx.spec_fail("cartesian_nearest_index_shape", "result %r for %d point(s), 1-d=%s" % (out, m, one_d),
+                              {"op": "nearestapi", "X": [[str(v) for v in r] for r in X], "nodes": [[str(v) for v in g] for g in nodes], "order": order})
+            if order in ("C", "F"):          # the documented orders: nearest point in the enumeration of cartesian(nodes, order)
+                for row, gi in zip(X, got):
+                    if not _nearest_ok(nodes, row, order, gi):
+                        ctx.spec_fail("cartesian_nearest_index_api", "index %d is not a nearest grid point" % gi,
+                                      {"op": "nearestapi", "x": [str(v) for v in row], "nodes": [[str(v) for v in g] for g in nodes], "order": order, "got": gi})
+        cases.append(Case("C16 nearestapi X=%s n=%d nodes=%s order=%s" % (ratrows(X), n, ratrows(nodes), order), impl,
+                          nontrivial=(not isinstance(out, str) and m >= 1), tag="nearestapi"))
+    # np.linspace itself (the only NumPy routine the model re-implements), bit for bit
+    for _ in range(ctx.n(100, 600)):
+        a_, b_, n_ = val(), val(), rng.randint(0, 9)
+        cases.append(Case("C16 linspace a=%s b=%s num=%d" % (fx(a_), fx(b_), n_), fxs(np.linspace(a_, b_, n_).tolist()),
+                          nontrivial=(n_ >= 3), tag="linspace"))
+        ctx.count("linspace:num=%s" % (n_ if n_ < 3 else "3+"))
+
+
 def run(ctx):
     from quantecon.util.numba import comb_jit
     from quantecon.util.combinatorics import next_k_array, k_array_rank, k_array_rank_jit
@@ -735,6 +892,8 @@ def run(ctx):
                           nontrivial=(max(len(g) for g in nodes) >= 2), tag="nearest"))
 
     run_forms_histories(ctx, cases, gt, comb_jit, next_k_array, k_array_rank, k_array_rank_jit, Mm, Nn)
+
+    run_api(ctx, cases, gt)
 
     # the int64 machine model of k_array_rank_jit (kArrayRankJitW): every krankjit case again, plus inputs on which the
     # running sum really wraps around in int64 (the code is compared as is; the property says nothing there)
